@@ -67,41 +67,71 @@ type tgt struct {
 func apis() []api {
 	z := &oj.ZeroHandler{}
 	return []api{
-		{"oj.Parse", "json", false, false, func(b []byte) error { _, err := oj.Parse(b); return err }},
-		{"oj.ParseString", "json", false, true, func(b []byte) error { _, err := oj.ParseString(string(b)); return err }},
-		{"oj.Load", "json", false, true, func(b []byte) error { _, err := oj.Load(bytes.NewReader(b)); return err }},
-		{"oj.Load@1", "json", false, true, func(b []byte) error { _, err := oj.Load(plib.Chunked(b, "1")); return err }},
-		{"oj.Validate", "json", false, false, func(b []byte) error { return oj.Validate(b) }},
-		{"oj.ValidateReader", "json", false, true, func(b []byte) error { return oj.ValidateReader(bytes.NewReader(b)) }},
-		{"oj.ValidateReader@1", "json", false, true, func(b []byte) error { return oj.ValidateReader(plib.Chunked(b, "1")) }},
-		{"oj.Tokenize", "json", false, false, func(b []byte) error { return oj.Tokenize(b, z) }},
-		{"oj.TokenizeLoad", "json", false, true, func(b []byte) error { return oj.TokenizeLoad(bytes.NewReader(b), z) }},
-		{"oj.TokenizeLoad@1", "json", false, true, func(b []byte) error { return oj.TokenizeLoad(plib.Chunked(b, "1"), z) }},
-		{"oj.Unmarshal(any)", "json", false, true, func(b []byte) error { var v any; return oj.Unmarshal(b, &v) }},
-		{"oj.Unmarshal(struct)", "json", false, true, func(b []byte) error { var v tgt; return oj.Unmarshal(b, &v) }},
-		{"oj.Match", "json", false, true, func(b []byte) error { return oj.Match(b, noData, matchPaths...) }},
-		{"oj.MatchLoad@1", "json", false, true, func(b []byte) error { return oj.MatchLoad(plib.Chunked(b, "1"), noData, matchPaths...) }},
-		{"gen.Parser.Parse", "json", false, false, func(b []byte) error { p := gen.Parser{}; _, err := p.Parse(b); return err }},
-		{"gen.Parser.ParseReader", "json", false, true, func(b []byte) error { p := gen.Parser{}; _, err := p.ParseReader(bytes.NewReader(b)); return err }},
-		{"gen.Parser.ParseReader@1", "json", false, true, func(b []byte) error { p := gen.Parser{}; _, err := p.ParseReader(plib.Chunked(b, "1")); return err }},
-		{"oj.MustParse", "json", true, true, func(b []byte) error { oj.MustParse(b); return nil }},
-		{"oj.MustParseString", "json", true, true, func(b []byte) error { oj.MustParseString(string(b)); return nil }},
-		{"oj.MustLoad", "json", true, true, func(b []byte) error { oj.MustLoad(bytes.NewReader(b)); return nil }},
+		{"oj.Parse", "json", false, false, func(b []byte) error { _, err := oj.Parse(b); return err }, nil},
+		{"oj.ParseString", "json", false, true, func(b []byte) error { _, err := oj.ParseString(string(b)); return err }, nil},
+		{"oj.Load", "json", false, true, func(b []byte) error { _, err := oj.Load(bytes.NewReader(b)); return err }, nil},
+		{"oj.Load@1", "json", false, true, func(b []byte) error { _, err := oj.Load(plib.Chunked(b, "1")); return err }, nil},
+		{"oj.Validate", "json", false, false, func(b []byte) error { return oj.Validate(b) }, nil},
+		{"oj.ValidateReader", "json", false, true, func(b []byte) error { return oj.ValidateReader(bytes.NewReader(b)) }, nil},
+		{"oj.ValidateReader@1", "json", false, true, func(b []byte) error { return oj.ValidateReader(plib.Chunked(b, "1")) }, nil},
+		{"oj.Tokenize", "json", false, false, func(b []byte) error { return oj.Tokenize(b, z) }, nil},
+		{"oj.TokenizeLoad", "json", false, true, func(b []byte) error { return oj.TokenizeLoad(bytes.NewReader(b), z) }, nil},
+		{"oj.TokenizeLoad@1", "json", false, true, func(b []byte) error { return oj.TokenizeLoad(plib.Chunked(b, "1"), z) }, nil},
+		{"oj.Unmarshal(any)", "json", false, true, func(b []byte) error { var v any; return oj.Unmarshal(b, &v) }, nil},
+		{"oj.Unmarshal(struct)", "json", false, true, func(b []byte) error { var v tgt; return oj.Unmarshal(b, &v) }, nil},
+		{"oj.Match", "json", false, true, func(b []byte) error { return oj.Match(b, noData, matchPaths...) }, nil},
+		{"oj.MatchLoad@1", "json", false, true, func(b []byte) error { return oj.MatchLoad(plib.Chunked(b, "1"), noData, matchPaths...) }, nil},
+		{"gen.Parser.Parse", "json", false, false, func(b []byte) error { p := gen.Parser{}; _, err := p.Parse(b); return err }, nil},
+		{"gen.Parser.ParseReader", "json", false, true, func(b []byte) error { p := gen.Parser{}; _, err := p.ParseReader(bytes.NewReader(b)); return err }, nil},
+		{"gen.Parser.ParseReader@1", "json", false, true, func(b []byte) error { p := gen.Parser{}; _, err := p.ParseReader(plib.Chunked(b, "1")); return err }, nil},
+		{"oj.MustParse", "json", true, true, func(b []byte) error { oj.MustParse(b); return nil }, nil},
+		{"oj.MustParseString", "json", true, true, func(b []byte) error { oj.MustParseString(string(b)); return nil }, nil},
+		{"oj.MustLoad", "json", true, true, func(b []byte) error { oj.MustLoad(bytes.NewReader(b)); return nil }, nil},
 		// SEN: fresh instances, so that the pending-plus leak through the pool (C07) cannot be blamed on the input
-		{"sen.Parser.Parse", "sen", false, false, func(b []byte) error { p := sen.Parser{}; _, err := p.Parse(b); return err }},
-		{"sen.Parser.ParseReader", "sen", false, true, func(b []byte) error { p := sen.Parser{}; _, err := p.ParseReader(bytes.NewReader(b)); return err }},
-		{"sen.Parser.ParseReader@1", "sen", false, true, func(b []byte) error { p := sen.Parser{}; _, err := p.ParseReader(plib.Chunked(b, "1")); return err }},
-		{"sen.Tokenizer.Parse", "sen", false, false, func(b []byte) error { t := sen.Tokenizer{}; return t.Parse(b, z) }},
-		{"sen.Tokenizer.Load@1", "sen", false, true, func(b []byte) error { t := sen.Tokenizer{}; return t.Load(plib.Chunked(b, "1"), z) }},
-		{"sen.Parser.Unmarshal(any)", "sen", false, true, func(b []byte) error { p := sen.Parser{}; var v any; return p.Unmarshal(b, &v) }},
-		{"sen.Parser.Unmarshal(struct)", "sen", false, true, func(b []byte) error { p := sen.Parser{}; var v tgt; return p.Unmarshal(b, &v) }},
-		{"sen.Match", "sen", false, true, func(b []byte) error { return sen.Match(b, noData, matchPaths...) }},
-		{"sen.Parser.MustParse", "sen", true, true, func(b []byte) error { p := sen.Parser{}; p.MustParse(b); return nil }},
-		{"sen.Parser.MustParseReader", "sen", true, true, func(b []byte) error { p := sen.Parser{}; p.MustParseReader(bytes.NewReader(b)); return nil }},
-		{"jp.ParseString", "jp", false, false, func(b []byte) error { _, err := jp.ParseString(string(b)); return err }},
-		{"jp.NewScript", "jp", false, false, func(b []byte) error { _, err := jp.NewScript(string(b)); return err }},
-		{"jp.MustParseString", "jp", true, false, func(b []byte) error { jp.MustParseString(string(b)); return nil }},
-		{"jp.MustNewScript", "jp", true, false, func(b []byte) error { jp.MustNewScript(string(b)); return nil }},
+		{"sen.Parser.Parse", "sen", false, false, func(b []byte) error { p := sen.Parser{}; _, err := p.Parse(b); return err }, nil},
+		{"sen.Parser.ParseReader", "sen", false, true, func(b []byte) error { p := sen.Parser{}; _, err := p.ParseReader(bytes.NewReader(b)); return err }, nil},
+		{"sen.Parser.ParseReader@1", "sen", false, true, func(b []byte) error { p := sen.Parser{}; _, err := p.ParseReader(plib.Chunked(b, "1")); return err }, nil},
+		{"sen.Tokenizer.Parse", "sen", false, false, func(b []byte) error { t := sen.Tokenizer{}; return t.Parse(b, z) }, nil},
+		{"sen.Tokenizer.Load@1", "sen", false, true, func(b []byte) error { t := sen.Tokenizer{}; return t.Load(plib.Chunked(b, "1"), z) }, nil},
+		{"sen.Parser.Unmarshal(any)", "sen", false, true, func(b []byte) error { p := sen.Parser{}; var v any; return p.Unmarshal(b, &v) }, nil},
+		{"sen.Parser.Unmarshal(struct)", "sen", false, true, func(b []byte) error { p := sen.Parser{}; var v tgt; return p.Unmarshal(b, &v) }, nil},
+		{"sen.Match", "sen", false, true, func(b []byte) error { return sen.Match(b, noData, matchPaths...) }, nil},
+		{"sen.Parser.MustParse", "sen", true, true, func(b []byte) error { p := sen.Parser{}; p.MustParse(b); return nil }, nil},
+		{"sen.Parser.MustParseReader", "sen", true, true, func(b []byte) error { p := sen.Parser{}; p.MustParseReader(bytes.NewReader(b)); return nil }, nil},
+		// SEN with the optional token-function set installed (sen/mongo.go: ISODate ObjectId NumberInt NumberLong NumberDecimal)
+		{"sen.Parser+Mongo.Parse", "sen", false, true, func(b []byte) error { p := sen.Parser{}; p.AddMongoFuncs(); _, err := p.Parse(b); return err }, nil},
+		{"sen.Parser+Mongo.ParseReader@1", "sen", false, true, func(b []byte) error {
+			p := sen.Parser{}
+			p.AddMongoFuncs()
+			_, err := p.ParseReader(plib.Chunked(b, "1"))
+			return err
+		}, nil},
+		{"sen.Parser+Mongo.Unmarshal(any)", "sen", false, true, func(b []byte) error { p := sen.Parser{}; p.AddMongoFuncs(); var v any; return p.Unmarshal(b, &v) }, nil},
+		{"sen.Parser+Mongo.MustParse", "sen", true, true, func(b []byte) error { p := sen.Parser{}; p.AddMongoFuncs(); p.MustParse(b); return nil }, nil},
+		// one instance reused across inputs
+		{"oj.Parser(reused).Parse", "json", false, true, nil, func() func([]byte) error { p := &oj.Parser{}; return func(b []byte) error { _, err := p.Parse(b); return err } }},
+		{"oj.Parser(reused).ParseReader@1", "json", false, true, nil, func() func([]byte) error {
+			p := &oj.Parser{}
+			return func(b []byte) error { _, err := p.ParseReader(plib.Chunked(b, "1")); return err }
+		}},
+		{"gen.Parser(reused).Parse", "json", false, true, nil, func() func([]byte) error { p := &gen.Parser{}; return func(b []byte) error { _, err := p.Parse(b); return err } }},
+		{"gen.Parser(reused).ParseReader@1", "json", false, true, nil, func() func([]byte) error {
+			p := &gen.Parser{}
+			return func(b []byte) error { _, err := p.ParseReader(plib.Chunked(b, "1")); return err }
+		}},
+		{"oj.Tokenizer(reused).Parse", "json", false, true, nil, func() func([]byte) error { t := &oj.Tokenizer{}; return func(b []byte) error { return t.Parse(b, z) } }},
+		{"oj.Validator(reused).Validate", "json", false, true, nil, func() func([]byte) error { v := &oj.Validator{}; return func(b []byte) error { return v.Validate(b) } }},
+		{"sen.Parser(reused).Parse", "sen", false, true, nil, func() func([]byte) error { p := &sen.Parser{}; return func(b []byte) error { _, err := p.Parse(b); return err } }},
+		{"sen.Parser+Mongo(reused).Parse", "sen", false, true, nil, func() func([]byte) error {
+			p := &sen.Parser{}
+			p.AddMongoFuncs()
+			return func(b []byte) error { _, err := p.Parse(b); return err }
+		}},
+		{"sen.Tokenizer(reused).Parse", "sen", false, true, nil, func() func([]byte) error { t := &sen.Tokenizer{}; return func(b []byte) error { return t.Parse(b, z) } }},
+		{"jp.ParseString", "jp", false, false, func(b []byte) error { _, err := jp.ParseString(string(b)); return err }, nil},
+		{"jp.NewScript", "jp", false, false, func(b []byte) error { _, err := jp.NewScript(string(b)); return err }, nil},
+		{"jp.MustParseString", "jp", true, false, func(b []byte) error { jp.MustParseString(string(b)); return nil }, nil},
+		{"jp.MustNewScript", "jp", true, false, func(b []byte) error { jp.MustNewScript(string(b)); return nil }, nil},
 	}
 }
 
@@ -110,7 +140,26 @@ type result struct {
 	msg string
 }
 
-func callOne(a *api, b []byte) (res result) {
+func callOne(a *api, b []byte) (res result) { return callWith(a.callFn(), b) }
+
+// callFn is the api's call on a fresh instance
+func (a *api) callFn() func([]byte) error {
+	if a.mk != nil {
+		return a.mk()
+	}
+	return a.call
+}
+
+// callAfter runs prev (if any) and then b on ONE fresh instance of a reused api
+func callAfter(a *api, prev, b []byte) result {
+	f := a.callFn()
+	if a.mk != nil && prev != nil {
+		callWith(f, prev)
+	}
+	return callWith(f, b)
+}
+
+func callWith(f func([]byte) error, b []byte) (res result) {
 	defer func() {
 		if x := recover(); x != nil {
 			res.msg = fmt.Sprintf("%T: %v", x, x)
@@ -125,7 +174,7 @@ func callOne(a *api, b []byte) (res result) {
 			}
 		}
 	}()
-	if err := a.call(append([]byte{}, b...)); err != nil {
+	if err := f(append([]byte{}, b...)); err != nil {
 		return result{r: rErr}
 	}
 	return result{r: rOK}
@@ -153,6 +202,7 @@ type failure struct {
 	R    string `json:"r"`
 	M    string `json:"m"`
 	B    []int  `json:"b"`
+	Prev []int  `json:"prev"` // reused instances: the input parsed successfully on the same instance just before
 	Cls  string `json:"cls"`
 	N    int    `json:"count"`
 	VK   string `json:"vk,omitempty"`
@@ -231,6 +281,8 @@ func (rn *runner) work(w int, jobs <-chan []job, wg *sync.WaitGroup) {
 	defer wg.Done()
 	local := map[string]*counts{}
 	var ncalls int64
+	inst := map[int]func([]byte) error{} // reused instances of this worker
+	prev := map[int][]byte{}
 	for batch := range jobs {
 		for _, j := range batch {
 			fl := &flight{t: time.Now().UnixNano(), b: j.b}
@@ -241,10 +293,28 @@ func (rn *runner) work(w int, jobs <-chan []job, wg *sync.WaitGroup) {
 					continue
 				}
 				fl.api = a.name
-				res := callOne(a, j.b)
+				var res result
+				if a.mk != nil {
+					if inst[ai] == nil {
+						inst[ai], prev[ai] = a.mk(), nil
+					}
+					res = callWith(inst[ai], j.b)
+					if res.r != rOK {
+						if failing(a, res.r) {
+							rn.recordFail(a, j, res, prev[ai])
+						}
+						inst[ai] = nil // never continue on an instance that failed
+					} else {
+						prev[ai] = j.b
+					}
+				} else {
+					res = callOne(a, j.b)
+				}
 				ncalls++
 				if failing(a, res.r) {
-					rn.recordFail(a, j, res)
+					if a.mk == nil {
+						rn.recordFail(a, j, res, nil)
+					}
 					continue
 				}
 				key := a.name + "\x00" + j.cls
@@ -282,18 +352,18 @@ func (rn *runner) work(w int, jobs <-chan []job, wg *sync.WaitGroup) {
 	rn.mu.Unlock()
 }
 
-func (rn *runner) recordFail(a *api, j job, res result) {
+func (rn *runner) recordFail(a *api, j job, res result, prev []byte) {
 	key := a.name + "\x00" + rName(res.r) + "\x00" + msgClass(res.msg)
 	rn.mu.Lock()
 	defer rn.mu.Unlock()
 	f := rn.fails[key]
 	if f == nil {
-		rn.fails[key] = &failure{API: a.name, Lang: a.lang, Must: a.must, R: rName(res.r), M: res.msg, B: plib.Ints(j.b), Cls: j.cls, N: 1}
+		rn.fails[key] = &failure{API: a.name, Lang: a.lang, Must: a.must, R: rName(res.r), M: res.msg, B: plib.Ints(j.b), Prev: plib.Ints(prev), Cls: j.cls, N: 1}
 		return
 	}
 	f.N++
-	if len(j.b) < len(f.B) {
-		f.B, f.M, f.Cls = plib.Ints(j.b), res.msg, j.cls
+	if len(j.b)+len(prev) < len(f.B)+len(f.Prev) {
+		f.B, f.Prev, f.M, f.Cls = plib.Ints(j.b), plib.Ints(prev), res.msg, j.cls
 	}
 }
 
@@ -309,11 +379,20 @@ func (rn *runner) shrink(f *failure) {
 		return
 	}
 	b := plib.Bytes(f.B)
+	var prev []byte
+	if a.mk != nil {
+		// does the failure need the history at all?
+		if res := callAfter(a, nil, b); failing(a, res.r) && rName(res.r) == f.R {
+			f.Prev = []int{}
+		} else {
+			prev = plib.Bytes(f.Prev)
+		}
+	}
 	for changed := true; changed; {
 		changed = false
 		for i := 0; i < len(b); i++ {
 			c := append(append([]byte{}, b[:i]...), b[i+1:]...)
-			res := callOne(a, c)
+			res := callAfter(a, prev, c)
 			if failing(a, res.r) && rName(res.r) == f.R {
 				b, f.M, changed = c, res.msg, true
 				i--
@@ -321,6 +400,13 @@ func (rn *runner) shrink(f *failure) {
 		}
 	}
 	f.B = plib.Ints(b)
+}
+
+func intsOrEmpty(x []int) []int {
+	if x == nil {
+		return []int{}
+	}
+	return x
 }
 
 func seed() int64 {
@@ -352,7 +438,8 @@ func one(args []string) {
 	limit := fs.Int("limit", 60, "seconds")
 	fs.Parse(args)
 	var c struct {
-		B []int `json:"b"`
+		B    []int `json:"b"`
+		Prev []int `json:"prev"`
 	}
 	if err := json.NewDecoder(os.Stdin).Decode(&c); err != nil {
 		fmt.Fprintln(os.Stderr, err)
@@ -362,7 +449,13 @@ func one(args []string) {
 	for i := range as {
 		if as[i].name == *name {
 			done := make(chan result, 1)
-			go func() { done <- callOne(&as[i], plib.Bytes(c.B)) }()
+			go func() {
+				var prev []byte
+				if len(c.Prev) > 0 {
+					prev = plib.Bytes(c.Prev)
+				}
+				done <- callAfter(&as[i], prev, plib.Bytes(c.B))
+			}()
 			select {
 			case r := <-done:
 				b, _ := json.Marshal(map[string]any{"r": rName(r.r), "m": r.msg, "fail": failing(&as[i], r.r)})
@@ -502,11 +595,11 @@ func runAll(args []string) {
 	}
 	for _, mk := range order {
 		f := merged[mk]
-		out.Write(plib.MarshalLine(map[string]any{"ev": "fail", "api": f.API, "lang": f.Lang, "must": f.Must, "r": f.R, "m": f.M, "b": f.B, "cls": f.Cls, "count": f.N, "vk": "", "tk": ""}))
+		out.Write(plib.MarshalLine(map[string]any{"ev": "fail", "api": f.API, "lang": f.Lang, "must": f.Must, "r": f.R, "m": f.M, "b": f.B, "prev": intsOrEmpty(f.Prev), "cls": f.Cls, "count": f.N, "vk": "", "tk": ""}))
 	}
 	for _, f := range convFails {
 		rn.calls += int64(f.N)
-		out.Write(plib.MarshalLine(map[string]any{"ev": "fail", "api": f.API, "lang": "conv", "must": false, "r": f.R, "m": f.M, "b": f.B, "cls": f.Cls, "count": f.N, "vk": f.VK, "tk": f.TK}))
+		out.Write(plib.MarshalLine(map[string]any{"ev": "fail", "api": f.API, "lang": "conv", "must": false, "r": f.R, "m": f.M, "b": f.B, "prev": []int{}, "cls": f.Cls, "count": f.N, "vk": f.VK, "tk": f.TK}))
 	}
 	out.Flush()
 	fmt.Fprintf(os.Stderr, "CALLS %d\n", rn.calls)
